@@ -107,7 +107,7 @@ pub fn run_pattern(c0: usize, mmax: usize, style: usize, window: usize, rounds: 
         let len = m.len();
         let leftover = if rng.chance(1, 3) { rng.below(len as u64 / 2 + 1) as usize } else { 0 };
         let n = len - leftover;
-        let st = if style == 7 { rng.below(7) as usize } else { style };
+        let st = if style == 7 { *rng.pick(&[0usize, 1, 2, 3, 4, 5, 6, 8, 9]) } else { style };
         match st {
             0 => {
                 let p = m.split_to(n);
@@ -131,6 +131,26 @@ pub fn run_pattern(c0: usize, mmax: usize, style: usize, window: usize, rounds: 
                 let p = m.split_to(n).freeze();
                 println!("r splitto {}", n);
                 parts.push_back(Part { h: PartH::B(p), gen });
+            }
+            8 => {
+                // consume through the Buf trait: copy_to_bytes = split_to(n).freeze()
+                let p = bytes::Buf::copy_to_bytes(&mut m, n);
+                println!("r splitto {}", n);
+                parts.push_back(Part { h: PartH::B(p), gen });
+            }
+            9 => {
+                // empty the handle, split its whole capacity off and take it back: unsplit onto an empty handle (`*self = other`)
+                m.truncate(0);
+                println!("r truncate 0");
+                let (c, pn) = count(&parts, gen);
+                obs(&m, c, pn);
+                let tail = m.split_off(0);
+                let tcap = tail.capacity();
+                println!("r splitofftail");
+                let (c, pn) = count(&parts, gen);
+                obs(&m, c + 1, pn);
+                m.unsplit(tail);
+                println!("r unsplitlast 0 {}", tcap);
             }
             5 => {
                 // round trip of the recycling handle itself through Bytes and back
@@ -190,7 +210,7 @@ pub fn run(args: &[String]) -> i32 {
     let ms = [16usize, 100, 4096, 70000];
     for c0 in caps {
         for mm in ms {
-            for style in 0..8 {
+            for style in 0..10 {
                 for window in [0usize, 2] {
                     if !thorough && (c0 + mm + style + window) % 3 != 0 {
                         continue;
